@@ -22,7 +22,8 @@ type verifWorld struct {
 	capacity  int
 	got       int // events handed out by the pool to the reader
 
-	splitParent map[int64]bool // offsets of events the split action made parents
+	splitParent map[int64]bool  // offsets of events the split action made parents
+	commitAt    map[int64]int64 // logical time of the commit notification (only kept when non-nil)
 }
 
 // input plugin stub: the commit notifications are where C01/C02 are asserted
@@ -61,6 +62,9 @@ func (in *verifInput) Commit(e *Event) {
 	}
 	// C02: once per event, in read order per stream
 	w.committed[off]++
+	if w.commitAt != nil {
+		w.commitAt[off] = vf.Now()
+	}
 	vf.Assert(w.committed[off] == 1, "committed-once")
 	seq := w.commitSeq[st]
 	if len(seq) > 0 {
@@ -126,7 +130,15 @@ func (a *verifJoiner) Do(e *Event) ActionResult {
 		return ActionDiscard
 	}
 	kind := 2
-	if vf.Param("script", 0) == 1 {
+	if vf.Param("script", 0) == 2 {
+		// scripted by stream: record 1 opens a run on stream a, the later records of a continue it, stream b carries single lines
+		switch {
+		case e.Offset == 1:
+			kind = 0
+		case a.w.streamOf[e.Offset] == "a":
+			kind = 1
+		}
+	} else if vf.Param("script", 0) == 1 {
 		// scripted: the first record starts a run, the others are single lines (the schedule is what is explored)
 		if e.Offset == 1 {
 			kind = 0
